@@ -15,7 +15,8 @@ let join sep = function [] -> "-" | l -> String.concat sep l
 
 let msg_s proto ((l, p) : msg) =
   let l = int_of_n l in
-  if proto = "opc" then Printf.sprintf "%d.%d:%s" (l / 256) (l mod 256) (hex_of_bytes p)
+  if proto = "acn" then "pdu:" ^ hex_of_bytes p
+  else if proto = "opc" then Printf.sprintf "%d.%d:%s" (l / 256) (l mod 256) (hex_of_bytes p)
   else Printf.sprintf "%d:%s" l (hex_of_bytes p)
 
 let ust_i = function U_PRE -> 0 | U_LABEL -> 1 | U_LO -> 2 | U_HI -> 3 | U_BODY -> 4 | U_EOM -> 5
@@ -74,6 +75,10 @@ let handle (p : string) : string =
       | "usbpro" -> run_proto proto u_recv u_init (fun s -> string_of_int (ust_i s.u_st)) ref_usb stream parts
       | "robe" -> run_proto proto r_recv r_init (fun s -> string_of_int (rst_i s.r_st)) ref_robe stream parts
       | "opc" -> run_proto proto o_recv o_init (fun s -> string_of_int (List.length s.o_data)) ref_opc stream parts
+      | "acn" -> run_proto proto a_recv a_init
+                   (fun s -> if s.a_valid then Printf.sprintf "%d/%d"
+                       (match s.a_st with A_PRE -> 0 | A_FLAGS -> 1 | A_LEN -> 2 | A_PDU -> 3) (int_of_n s.a_out)
+                     else "X") ref_acn stream parts
       | _ -> ("bad-op", "-") in
     r ^ ";class=" ^ classify proto stream refm (List.length parts)
   | _ -> "bad-op"
